@@ -76,6 +76,8 @@ NUM_EXPRS = [
     ("INT(RND)+INT(RND)", ("bin", "+", ("bin", "*", F("INT", F("RND", n(0))), n(10)), F("INT", F("RND", n(0))))),
     ("POINT(BUTTON(0),BUTTON(0))", F("POINT", F("BUTTON", n(0)), F("BUTTON", n(0)))),
     ("INT(PEEK)-INT(PEEK)", ("bin", "-", F("INT", F("PEEK", n(100))), F("INT", F("PEEK", n(100))))),
+    # VAL of texts that are not numbers (the result is 0 - and it IS a result: the temporary is written)
+    ("VAL(abc)", F("VAL", ("str", "ABC"))), ("VAL(HEX$)", F("VAL", F("HEX$", n(255)))), ("VAL(A$)+INT", ("bin", "+", F("VAL", ("var", "A$")), F("INT", C))),
 ]
 
 
@@ -121,7 +123,7 @@ NUM_CARRIERS = ["sub_both", "sub_both2", "assign", "assign_elem", "sub_rhs", "su
                 "dev_hcircle", "dev_poke", "read_sub", "input_sub", "loop_body", "jump_target", "two_statements", "width",
                 "assign_raw", "assign_elem_raw", "print_raw", "print_item_raw", "print_at_raw", "print_last_raw", "print_many",
                 "varptr_sub", "varptr_sub2", "if_nested_false", "if_nested_true", "if_nested_deep",
-                "for_limit_step", "for_all_three", "poke_fast", "poke_slow", "poke_fast_hex", "assign_self", "assign_self_elem", "if_rem_then", "if_rem_then2", "self_bare", "if_and_false", "if_and_true", "if_or_true", "if_and_paren"]
+                "for_limit_step", "for_all_three", "poke_fast", "poke_slow", "poke_fast_hex", "assign_self", "assign_self_elem", "if_rem_then", "if_rem_then2", "self_bare", "if_and_false", "if_and_true", "if_or_true", "if_and_paren", "stale_tmp"]
 STR_CARRIERS = ["assign_s", "assign_elem_s", "print_item_s", "print_at_item_s", "if_s_noelse", "if_s_else", "dev_hprint",
                 "dev_hdraw", "loop_body_s", "len_assign", "assign_self_s", "if_rem_then_s"]
 
@@ -199,6 +201,9 @@ def carrier(name, e):
         op = "OR" if name == "if_or_true" else "AND"
         return [(30, [("let", R, n(2), False), ("if", ("bin", op, left, ("bin", ">", e, n(1))), ("stmts", [("let", R, n(1), False)]), [], None)]),
                 (40, [("let", ("var", "Q"), F("BUTTON", n(2)), False)])]
+    if name == "stale_tmp":
+        # the statement before leaves something in the temporaries this one will use
+        return one([("let", R, ("bin", "*", F("INT", ("bin", "/", C, n(2))), F("INT", n(5))), False), ("let", ("var", "Q"), ("bin", "+", e, n(1)), False)])
     if name == "if_rem_then":
         # the THEN part holds nothing but a remark: the condition is evaluated all the same (INKEY$ is read, BUTTON polled)
         return [(30, [("if", ("bin", ">", e, n(1)), ("stmts", [("rem", " DISCARD", "'")]), [], None)]), (40, [("let", R, n(1), False)])]
